@@ -22,6 +22,68 @@ package badgerstore
 //@   ensures name: bytes(b)[0:len(idx.Name)] == idx.Name && b[len(idx.Name)] == ':'
 //@   ensures prefix: bytes(b)[len(idx.Name)+1:] == old(bytes(keyPrefix))
 //@
+//@ # ---- FetchCollection: the result is the [offset, offset+limit) window of the accepted scan entries ----
+//@ # entry p of the scan sequence (see the iterator contract) is accepted when the last NUL (the id separator)
+//@ # is not inside the query prefix and the index-key part between the name and the separator passes the filter
+//@ spec func lastNul(a arr, n int) int
+//@   decreases n
+//@   = ite(n <= 0, -1, ite(a[n-1] == 0, n-1, lastNul(a, n-1)))
+//@ spec func skSep(p int) int
+//@   = lastNul(skArr(p), skLen(p))
+//@ spec func accq(p int, f ref, namelen int, qplen int) bool
+//@   = skSep(p) >= qplen && (f == 0 || fpred(f, strOf(skArr(p), skLen(p))[namelen:skSep(p)]))
+//@ spec func rank(p int, f ref, namelen int, qplen int) int
+//@   decreases p
+//@   = ite(p <= 0, 0, rank(p-1, f, namelen, qplen) + ite(accq(p-1, f, namelen, qplen), 1, 0))
+//@ pred idIs(s string, p int) = len(s) == skLen(p) - skSep(p) - 1 && forall(i, 0, len(s), s[i] == skArr(p)[skSep(p)+1+i])
+//@ lemma lastNulIs(a arr, n int, r int)
+//@   requires 0 <= n && -1 <= r && r < n && imp(r >= 0, a[r] == 0) && forall(k, r+1, n, a[k] != 0)
+//@   ensures lastNul(a, n) == r
+//@   decreases n
+//@   use imp(n > 0 && r < n - 1, lastNulIs(a, n-1, r))
+//@ lemma rankMono(p int, q int, f ref, namelen int, qplen int)
+//@   requires p <= q
+//@   ensures rank(p, f, namelen, qplen) <= rank(q, f, namelen, qplen) && 0 <= rank(p, f, namelen, qplen)
+//@   decreases ite(p < q, q - p, 0) + ite(p > 0, p, 0)
+//@   use imp(p < q, rankMono(p, q-1, f, namelen, qplen))
+//@   use imp(p == q && p > 0, rankMono(p-1, p-1, f, namelen, qplen))
+//@ lemma rankStep(p int, f ref, namelen int, qplen int)
+//@   requires p >= 0
+//@   ensures rank(p+1, f, namelen, qplen) == rank(p, f, namelen, qplen) + ite(accq(p, f, namelen, qplen), 1, 0) && rank(0, f, namelen, qplen) == 0
+//@ ghostvar rpos arr
+//@ func IndexQuery.FetchCollection$1(txn *badger.Txn) (err error)
+//@   requires iq != nil && txn != nil && limit > 0 && len(result) == 0 && itopen == 0
+//@   requires namelen == len(iq.Index.Name) + 1 && qplen == len(queryPrefix) && qplen >= namelen && same(filter, iq.FilterKeys)
+//@   modifies all
+//@   callback filter filterCB
+//@   opaque rank lastNul
+//@   ghost call Item.Key#1 after :: set rpos = store(rpos, len(result), itpos)
+//@   ghost call LastIndexByte#1 after :: use lastNulIs(skArr(itpos), skLen(itpos), arg_r)
+//@   ghost call Iterator.Next#1 before :: use rankStep(itpos, ref(filter), namelen, qplen)
+//@   ghost call Iterator.Next#1 before :: use rankMono(itpos, itpos, ref(filter), namelen, qplen)
+//@   ghost loop 1 entry :: use rankStep(0, ref(filter), namelen, qplen)
+//@   ghost exit :: use rankMono(itpos, itn, ref(filter), namelen, qplen)
+//@   ghost exit :: use rankStep(itpos, ref(filter), namelen, qplen)
+//@   ghost exit :: use rankMono(itpos+1, itn, ref(filter), namelen, qplen)
+//@   ensures closed: itopen == 0
+//@   ensures frame.iq: iq == old(iq)
+//@   ensures frame.off: unchanged("badgerstore.IndexQuery.Offset", "badgerstore.IndexQuery.Limit", "badgerstore.IndexQuery.Reverse")
+//@   ensures frame.fk: unchanged("badgerstore.IndexQuery.FilterKeys")
+//@   ensures frame.kp: unchanged("badgerstore.IndexQuery.KeyPrefix")
+//@   ensures frame.name: unchanged("badgerstore.Index.Name")
+//@   ensures count: imp(isNil(err), len(result) == ite(rank(itn, ref(filter), namelen, qplen) - ite(old(offset) > 0, old(offset), 0) < 0, 0, ite(rank(itn, ref(filter), namelen, qplen) - ite(old(offset) > 0, old(offset), 0) > old(limit), old(limit), rank(itn, ref(filter), namelen, qplen) - ite(old(offset) > 0, old(offset), 0))))
+//@   ensures window: imp(isNil(err), forall(j, 0, len(result), 0 <= rpos[j] && rpos[j] < itn && accq(rpos[j], ref(filter), namelen, qplen) && rank(rpos[j], ref(filter), namelen, qplen) == ite(old(offset) > 0, old(offset), 0) + j && idIs(result[j], rpos[j])))
+//@   loop 1 invariant 0 <= itpos && itpos <= itn && itopen == 1 && limit > 0 && limit == old(limit) - len(result) && iq == old(iq)
+//@   loop 1 invariant imp(old(offset) <= 0, offset == old(offset)) && imp(old(offset) > 0, offset == ite(old(offset) - rank(itpos, ref(filter), namelen, qplen) > 0, old(offset) - rank(itpos, ref(filter), namelen, qplen), 0))
+//@   loop 1 invariant len(result) == ite(rank(itpos, ref(filter), namelen, qplen) - ite(old(offset) > 0, old(offset), 0) > 0, rank(itpos, ref(filter), namelen, qplen) - ite(old(offset) > 0, old(offset), 0), 0)
+//@   loop 1 invariant forall(j, 0, len(result), 0 <= rpos[j] && rpos[j] < itpos && accq(rpos[j], ref(filter), namelen, qplen) && rank(rpos[j], ref(filter), namelen, qplen) == ite(old(offset) > 0, old(offset), 0) + j && idIs(result[j], rpos[j]))
+//@ func (iq *IndexQuery) FetchCollection(db *badger.DB) (res []string, err error)
+//@   requires iq != nil && db != nil && itopen == 0
+//@   modifies all
+//@   ensures zero: imp(old(iq.Limit) == 0, len(res) == 0 && isNil(err))
+//@   ensures failed: imp(!isNil(err), len(res) == 0)
+//@   ensures closed: itopen == 0
+//@
 //@ props C14
 //@ # the index-query callback, key functions and key filters are client code; they are assumed to be
 //@ # functions of their arguments that do not modify the byte slices they are given
